@@ -191,6 +191,26 @@ def run_case(case):
         if d != ref:
             diff = B.first_diff(ref, d)
             res.violate("C15", "C15/memory-resume-differs", "pause at k=%d of %d and resume in memory: differs at %s (%r vs %r)" % (k, T, diff[0], diff[1], diff[2]), k=k)
+        # ---- in memory, on a duplicate made with the copy protocol (deepcopy / pickle round trip), original kept alive
+        if (k + case.get("i", 0)) % 2 == 0:
+            I.set_order(order)
+            m = B.build(spec, share_ids=share)
+            h = Hist(spec, order=order, model=m)
+            e = h.do(["pause", k])
+            how = "deepcopy" if (k // 2) % 2 == 0 else "pickle"
+            if e is None:
+                e = h.do([how])
+                if e is None:
+                    e = h.do(["resume"])
+                res.count("C15.copy_resumes." + how)
+                if e is not None:
+                    res.violate("C15", "C15/exception-during-copy-resume:%s:%s:%s" % (how, e["type"], e["where"]),
+                                "pause at %d, %s, resume raised %s: %s" % (k, how, e["type"], e["msg"]))
+                else:
+                    d = strip_pert(B.dump(h.p))
+                    if d != ref:
+                        diff = B.first_diff(ref, d)
+                        res.violate("C15", "C15/copy-resume-differs:" + how, "pause at k=%d of %d, %s, resume of the copy: differs at %s (%r vs %r)" % (k, T, how, diff[0], diff[1], diff[2]), k=k)
         # ---- through a JSON file
         I.set_order(order)
         m = B.build(spec, share_ids=share)
